@@ -23,6 +23,38 @@ def _attr_chain(n):
     return tuple(reversed(out))
 
 
+def _default_dtype_only_types_new_tensors(fn, attr_node):
+    """structural, not by function name: `torch.get_default_dtype()` may appear only as the `dtype=` of a `torch.tensor(...)`
+    construction, directly or through a local name that is used for nothing else (filters are created in the default dtype and
+    stored as buffers; data must never be cast to it)"""
+    def is_tensor_ctor(call):
+        return isinstance(call, ast.Call) and _attr_chain(call.func)[-2:] in (('torch', 'tensor'), ('torch', 'as_tensor'))
+    call = None
+    for q in ast.walk(fn):
+        if isinstance(q, ast.Call) and q.func is attr_node:
+            call = q
+    if call is None:
+        return False                                  # the function object itself is passed around
+    names = set()
+    for q in ast.walk(fn):
+        if is_tensor_ctor(q) and any(k.arg == 'dtype' and k.value is call for k in q.keywords):
+            return True
+        if isinstance(q, ast.Assign) and q.value is call and len(q.targets) == 1 and isinstance(q.targets[0], ast.Name):
+            names.add(q.targets[0].id)
+    if not names:
+        return False
+    ok_uses = set()
+    for q in ast.walk(fn):
+        if is_tensor_ctor(q):
+            for k in q.keywords:
+                if k.arg == 'dtype' and isinstance(k.value, ast.Name) and k.value.id in names:
+                    ok_uses.add(id(k.value))
+    for q in ast.walk(fn):
+        if isinstance(q, ast.Name) and q.id in names and isinstance(q.ctx, ast.Load) and id(q) not in ok_uses:
+            return False
+    return True
+
+
 def g_reads():
     obs = []
     for key in PURE_FILES:
@@ -47,8 +79,8 @@ def g_reads():
                     ch = _attr_chain(node)
                     if ch[:2] in FORBIDDEN_CALLS or ch[-2:] in FORBIDDEN_CALLS:
                         bad.append('uses %s' % '.'.join(ch))
-                    if ch[-1:] == ('get_default_dtype',) and qual not in ALLOW_DEFAULT_DTYPE:
-                        bad.append('reads the global default dtype outside filter construction')
+                    if ch[-1:] == ('get_default_dtype',) and not _default_dtype_only_types_new_tensors(fn, node):
+                        bad.append('reads the global default dtype for something else than the dtype of a tensor built from python / numpy data')
                     if node.attr == 'requires_grad' and isinstance(node.ctx, ast.Load) and qual not in ALLOW_REQUIRES_GRAD \
                             and key != 'scatternet.lowlevel':
                         # scatternet.lowlevel: the flag decides what is SAVED for backward; that the returned values do not depend on it
